@@ -37,6 +37,7 @@ TRUSTED = [
 ASSUMPTIONS = ["no handler vetoes player_add_request; no ball devices / ball save / ball search (fake-game scaffolding)",
                "handlers of lifecycle events do not raise"]
 
+KNOWN_SIGS = ("end-game-before-game-started",)
 GRID = 0.125
 LIFE = ["game_will_start", "game_starting", "game_started", "player_turn_will_start", "player_turn_starting",
         "player_turn_started", "ball_will_start", "ball_starting", "ball_started", "ball_will_end", "ball_ending",
@@ -524,6 +525,9 @@ def one_case(ctx, model, case, sample=True):
                 ctx.count("events")
     res = oracle(case, real, crash)
     if res is not None:
+        if res[0] in KNOWN_SIGS and any(f["signature"] == res[0] for f in ctx.failures):
+            ctx.count("known_" + res[0])        # recorded (and shrunk) once per run
+            return
         small, r2 = shrink(case, res[0])
         ctx.fail(res[0], small, (r2 or res)[1])
         return
@@ -556,7 +560,7 @@ def run(ctx):
             one_case(ctx, model, case)
         for i in range(ctx.n(500, 7000)):
             one_case(ctx, model, gen_case(ctx.rng("case", i)))
-            if len(ctx.failures) >= 3:
+            if len([f for f in ctx.failures if f["signature"] not in KNOWN_SIGS]) >= 3:
                 break
     finally:
         if model is not None:
